@@ -86,6 +86,15 @@ Theorem C37_tags_distinct_refuted :
 Proof. exact tags_distinct_refuted. Qed.
 Print Assumptions C37_tags_distinct_refuted.
 
+(* Full statement (false): tags do not depend on where commits are placed between the same statements. *)
+Theorem C37_commit_placement_refuted :
+  exists rand_seq sx sy,
+    run rand_seq 8 {| head := []; work := []; other := [] |} (cp_base ++ [cp_new]) = Some sx
+    /\ run rand_seq 8 {| head := []; work := []; other := [] |} (cp_base ++ [Commit; cp_new]) = Some sy
+    /\ list_eqb N.eqb (root_tags (work sx)) (root_tags (work sy)) = false.
+Proof. exact commit_placement_refuted. Qed.
+Print Assumptions C37_commit_placement_refuted.
+
 Theorem C37_schema_roundtrip :
   forall (type_string : bytes -> bytes) (parse_type : bytes -> option bytes) s,
     wf_schema type_string parse_type s ->
@@ -110,10 +119,11 @@ Theorem C37_oracle_b_on_model : forall i, oracle_b (model_obs i) = true.
 Proof. exact oracle_b_on_model. Qed.
 Print Assumptions C37_oracle_b_on_model.
 
-(* Full statement (false without input_safe: C37_tags_distinct_refuted): forall i, oracle i (model_obs i) = true. *)
+(* Full statement (false without input_safe: C37_tags_distinct_refuted; clause (d), independence of the commit placement, is
+   not a theorem of the model either — see Corr.oracle_d): forall i, oracle i (model_obs i) = true. *)
 Theorem C37_oracle_on_model_partial :
   forall i, Forall (wf_schema (fun x => x) (fun x => Some x)) (i_schemas i) -> input_safe i = true ->
-    oracle i (model_obs i) = true.
+    oracle_abc i (model_obs i) = true.
 Proof. exact oracle_on_model_partial. Qed.
 Print Assumptions C37_oracle_on_model_partial.
 
